@@ -1,2 +1,5 @@
+from contracts.encoder_c import CallEncodeTask, EncodeTask
+
+
 def add(run, tier):
-    pass
+    run.add(CallEncodeTask('C09'), EncodeTask('C09'))
